@@ -253,17 +253,44 @@ def check_b3(ctx, fn: FuncInfo, tag: str) -> None:
     # placed after every statement that uses the unpadded series with energy series
     pads = [x for x in fn.node.body if isinstance(x, ast.For) and any(
         isinstance(c.func, ast.Attribute) and c.func.attr == 'insert' and 'Price.value' in norm(c.func.value) for c in calls_in(x))]
-    ctx.require(len(pads) == 1, f'{tag}: construction-year padding loop not found at top level')
-    pad = pads[0]
-    a = [norm(x) for x in pad.iter.args]
-    ctx.check(a in (['0', 'model.surfaceplant.construction_years.value', '1'], ['0', 'model.surfaceplant.construction_years.value'],
-                    ['model.surfaceplant.construction_years.value']), 'B3', f'{tag}/padding/count', f'{rel}:{pad.lineno}',
-              f'padding loop runs range({", ".join(a)}); one zero per construction year is required')
-    ins = [c for c in calls_in(pad) if isinstance(c.func, ast.Attribute) and c.func.attr == 'insert']
-    series = sorted(norm(c.func.value) for c in ins)
-    ctx.check(series == sorted(f'self.{p}Price.value' for p in PRODUCTS) and all([norm(x) for x in c.args] == ['0', '0.0'] for c in ins), 'B3',
-              f'{tag}/padding/series-and-value', f'{rel}:{pad.lineno}',
-              f'padding inserts {[(norm(c.func.value), [norm(x) for x in c.args]) for c in ins][:4]}; each of the four price series gets 0.0 at index 0')
+    CY = 'model.surfaceplant.construction_years.value'
+    if not pads:
+        # slice form: `<series>[:0] = [0.0] * C` (directly, or for each of a literal tuple of price models) prepends the same C zeros
+        from gxstat.inline import inline_sequential
+        slices = []
+        for top_st in fn.node.body:
+            for x in ast.walk(top_st):
+                if isinstance(x, ast.Assign) and len(x.targets) == 1 and isinstance(x.targets[0], ast.Subscript) and isinstance(x.targets[0].slice, ast.Slice) \
+                        and x.targets[0].slice.lower is None and isinstance(x.targets[0].slice.upper, ast.Constant) and x.targets[0].slice.upper.value == 0 \
+                        and x.targets[0].slice.step is None:
+                    slices.append((top_st, x))
+        ctx.require(slices and len({id(t) for t, _ in slices}) == 1, f'{tag}: construction-year padding loop not found at top level')
+        pad = slices[0][0]
+        series = []
+        vals = set()
+        for top_st, x in slices:
+            base = x.targets[0].value
+            vals.add(norm(inline_sequential(x.value, x, cross_loops=True)))
+            if isinstance(top_st, ast.For) and isinstance(top_st.iter, (ast.Tuple, ast.List)) and isinstance(top_st.target, ast.Name) and \
+                    isinstance(base, ast.Attribute) and isinstance(base.value, ast.Name) and base.value.id == top_st.target.id:
+                series += [f'{norm(e)}.{base.attr}' for e in top_st.iter.elts]
+            else:
+                series.append(norm(base))
+        ctx.check(vals <= {f'[0.0] * {CY}', f'{CY} * [0.0]'}, 'B3', f'{tag}/padding/count', f'{rel}:{pad.lineno}',
+                  f'padding prepends {sorted(vals)}; one zero per construction year is required')
+        ctx.check(sorted(series) == sorted(f'self.{p}Price.value' for p in PRODUCTS), 'B3', f'{tag}/padding/series-and-value', f'{rel}:{pad.lineno}',
+                  f'padding prepends to {sorted(series)}; each of the four price series gets the zeros')
+    else:
+        ctx.require(len(pads) == 1, f'{tag}: construction-year padding loop not found at top level')
+        pad = pads[0]
+        a = [norm(x) for x in pad.iter.args]
+        ctx.check(a in (['0', CY, '1'], ['0', CY], [CY]), 'B3', f'{tag}/padding/count', f'{rel}:{pad.lineno}',
+                  f'padding loop runs range({", ".join(a)}); one zero per construction year is required')
+        ins = [c for c in calls_in(pad) if isinstance(c.func, ast.Attribute) and c.func.attr == 'insert']
+        series = sorted(norm(c.func.value) for c in ins)
+        ctx.check(series == sorted(f'self.{p}Price.value' for p in PRODUCTS) and all([norm(x) for x in c.args] == ['0', '0.0'] for c in ins), 'B3',
+                  f'{tag}/padding/series-and-value', f'{rel}:{pad.lineno}',
+                  f'padding inserts {[(norm(c.func.value), [norm(x) for x in c.args]) for c in ins][:4]}; each of the four price series gets 0.0 at index 0')
     top = list(fn.node.body)
     pidx = top.index(pad)
     late = []
